@@ -323,7 +323,7 @@ def unit_file():
 
 
 def unit_dir():
-    return _simple_unit("dir", {"dir.rs": "dir_h.rs"}, lambda tier, meta: ["dir::verif_h::validate_path_sym", "dir::verif_h::validate_path_sym10", "dir::verif_h::node_encoding"] + (["dir::verif_h::validate_path_sym13"] if tier != "quick" else []),
+    return _simple_unit("dir", {"dir.rs": "dir_h.rs"}, lambda tier, meta: ["dir::verif_h::validate_path_sym", "dir::verif_h::validate_path_sym10", "dir::verif_h::node_encoding"] + (["dir::verif_h::validate_path_sym13", "dir::verif_h::validate_path_sym16"] if tier != "quick" else []),
                         decode_fn=decode.decode_dir, features=("dir",), panic_tags=("C13", "C19"))
 
 
@@ -570,7 +570,7 @@ PROPS["C19"] = {
                    "Node::encoding / encoding_varies / add_encoding_headers for every (auto_gzip, is_gzipped) with is_gzipped => auto_gzip and a header map with or without stale Content-Encoding / Vary values. "
                    "Counterexamples are replayed through FsDir::get on a real temporary directory (a secret file outside the base; device+inode compared with what std opens for base/path).",
     "functions": ["dir::validate_path", "dir::Node::encoding", "dir::Node::encoding_varies", "dir::Node::add_encoding_headers"],
-    "bounds": {"path": "<= 10 bytes (thorough: <= 13 bytes)", "node": "all 6 reachable (auto_gzip, is_gzipped) x stale-header combinations; File/Metadata are never-read placeholders"},
+    "bounds": {"path": "<= 10 bytes (thorough: <= 16 bytes)", "node": "all 6 reachable (auto_gzip, is_gzipped) x stale-header combinations; File/Metadata are never-read placeholders"},
     "outside": ["openat and the decision WHICH file is opened (.gz first, directory skipped, NotFound fallback): behind spawn_blocking, libc::openat and std::fs::Metadata, which only the operating system produces; the native replayer exercises it on one tree per counterexample but the solver does not decide it", "longer paths"],
     "assumptions": MODEL_ASSUMPTIONS,
     "level_note_extra": "partial: path validation and the Node's encoding reporting; which file is opened is outside",
